@@ -1,5 +1,6 @@
 import LentilVerif.Model.Heap
 import LentilVerif.Lemmas.Heap
+import LentilVerif.Props.C04
 /-! # C10 — calls are pure: no hidden mutation of inputs, no dependence on call history
 
 **Partial by nature** (DESIGN §5 C10): the theorems are about *effect summaries*. What each public function may write is
@@ -7,7 +8,7 @@ the generated table `Gen.effTable` (effect-site scan of the source, regenerated 
 summaries are confined to the documented in-place list and that they compose over unbounded histories. That each
 summary is right about NumPy-level behaviour is sampled by the correspondence (tools/harness/c10.py). -/
 namespace Lentil.C10
-open Lentil.Heap
+open Lentil Lentil.Heap
 
 /-! ## The generated table against the documented in-place list -/
 
@@ -16,6 +17,28 @@ in-place (explicit output buffers, accumulate-into-array, scratch, in-place tilt
 editing methods). (Two hidden writes the scan found — `Spectrum.bin` converting `self`, `Rotate.__init__` scaling an
 ndarray `angle` — were reported and fixed in the repository; their witnesses are corpus cases.) -/
 theorem documented_inplace_only : tableOK Gen.effTable = true := by decide +kernel
+
+/-- slot-specific: the in-place write sites of the documented in-place functions go through exactly the attributes the
+documentation names — `fit_tilt` touches only `opd` and `tilt` (never amplitude, mask or pixel scale), each plane/spectrum/wavefront
+setter only its own attribute, the spectrum editing methods only wave/value(/units) — read off the source on every run -/
+theorem inplace_writes_go_through_documented_attributes :
+    (Gen.effTable.filter fun r => r.pub && !r.writePaths.isEmpty).map (fun r => (r.fn, r.writePaths)) =
+      [("plane.Plane.amplitude", [("self", "amplitude")]),
+       ("plane.Plane.fit_tilt", [("self", "opd"), ("self", "tilt")]),
+       ("plane.Plane.opd", [("self", "opd")]),
+       ("radiometry.Material.emission", [("self", "emission")]),
+       ("radiometry.Material.transmission", [("self", "transmission")]),
+       ("radiometry.Spectrum.append", [("self", "value"), ("self", "wave")]),
+       ("radiometry.Spectrum.crop", [("self", "value"), ("self", "wave")]),
+       ("radiometry.Spectrum.pad", [("self", "value"), ("self", "wave")]),
+       ("radiometry.Spectrum.resample", [("self", "value"), ("self", "wave"), ("self", "waveunit")]),
+       ("radiometry.Spectrum.to", [("self", "value"), ("self", "valueunit"), ("self", "wave"), ("self", "waveunit")]),
+       ("radiometry.Spectrum.trim", [("self", "value"), ("self", "wave")]),
+       ("radiometry.Spectrum.value", [("self", "value")]),
+       ("radiometry.Spectrum.valueunit", [("self", "valueunit")]),
+       ("radiometry.Spectrum.wave", [("self", "wave")]),
+       ("radiometry.Spectrum.waveunit", [("self", "waveunit")]),
+       ("wavefront.Wavefront.ptype", [("self", "ptype")])] := by decide +kernel
 
 /-- no function writes a module-level object or a value handed out by a cached function; the only cache is `_dft2_coords`
 and the only module-level containers are two constant tables -/
@@ -148,12 +171,32 @@ theorem cache_invariant (ops : List Op) (s : State) (hs : CacheOK s)
       simp only [List.all_eq_true, Bool.and_eq_true] at ht
       simp [(ht r (row?_mem _ _ _ hr).1).1]
 
+/-- what the cache holds, read off the source: the four vectors `_dft2_coords(m, n, M, N)` builds (regenerated `Gen.fwCoord0..3`)
+are `arange(len) − ⌊len/2⌋` of the four lengths, in the order (m, n, M, N) -/
+theorem fresh_coords_are_centred (m n M N : Int) :
+    freshCoords (m, n, M, N) = (cc m, cc n, cc M, cc N) := rfl
+
 /-- hence the coordinates a Fourier-transform call works with depend only on its own shape arguments, not on the
 history of earlier calls (repeated or interleaved calls with other offsets, shifts or shapes) -/
 theorem result_history_independent (ops : List Op) (s : State) (hs : CacheOK s)
     (h : ∀ op ∈ ops, (row? Gen.effTable op.fn).isSome) (k : Key) :
     lookup (run Gen.effTable s ops) k = freshCoords k :=
   lookup_of_ok _ (cache_invariant ops s hs h) k
+
+/-- **plane-state confluence** (composed with C04's `fit_tilt_history`, proved there over the regenerated tilt-fit model): two
+histories of OPD updates and tilt fits — in any order and number, whatever coefficients the solver returned — that start from
+the same plane and apply the same total OPD update reach the same *optical* state: current OPD plus the ramp of all recorded tilts.
+(That `multiply`/`propagate` depend only on that total is C04's tilt-equivalence theorem; the histories are sampled here.) -/
+theorem plane_state_total_invariant {R : Type} [Field R] [RealLike R] (h1 : (RealLike.ofInt 1 : R) = 1) (s0 s1 : Int) (px0 px1 : R)
+    (mask : Int → Int → R) (ops ops' : List (TiltOp R)) (opd : Int → Int → R) (ts : List (R × R)) (i j : Int)
+    (hsame : tiltUpdatesSum ops i j = tiltUpdatesSum ops' i j) :
+    (tiltRun s0 s1 px0 px1 mask ops (opd, ts)).1 i j +
+      tiltRamp s0 s1 px0 px1 mask ((tiltRun s0 s1 px0 px1 mask ops (opd, ts)).2.map Prod.fst).sum
+        ((tiltRun s0 s1 px0 px1 mask ops (opd, ts)).2.map Prod.snd).sum i j =
+    (tiltRun s0 s1 px0 px1 mask ops' (opd, ts)).1 i j +
+      tiltRamp s0 s1 px0 px1 mask ((tiltRun s0 s1 px0 px1 mask ops' (opd, ts)).2.map Prod.fst).sum
+        ((tiltRun s0 s1 px0 px1 mask ops' (opd, ts)).2.map Prod.snd).sum i j := by
+  rw [Lentil.C04.fit_tilt_history h1, Lentil.C04.fit_tilt_history h1, hsame]
 
 /-- non-vacuity: a two-call history (construct a plane from caller arrays 0 and 1, fit its tilt in place) in which the
 frame theorem's conclusion is the in-place fit on the plane that holds cell 1 by reference -/
